@@ -9,10 +9,15 @@ Local Open Scope N_scope.
 
 Definition flat := RunCodec.flat.
 Definition robs := RunWal.robs.
+Definition H (s : string) : bytes := unhex s.
 
 (** SST: what reading the flipped table file delivered *)
 Definition sent := (bytes * bytes * N * N)%type.      (* internal key, value, meta, expiresAt *)
-Inductive tobs := TOpenErr | TPanic | TRead (ents : list sent) (errors : N).
+(** per built key: what Search returned *)
+Inductive kobs := KFound (e : sent) | KNotFound | KErr.
+(** the flipped table file: open error, fail-stop panic, or (Search of every built key, forward iteration) *)
+Inductive tobs := TOpenErr | TPanic | TRead (per_key : list kobs) (iter : list sent) (block_error : bool).
+    (* block_error: loading the blocks one by one (loadBlock) reported an error *)
 Definition sent_eqb (a b : sent) : bool :=
   let '(k1, v1, m1, x1) := a in let '(k2, v2, m2, x2) := b in
   bytes_eqb k1 k2 && bytes_eqb v1 v2 && (m1 =? m2) && (x1 =? x2).
@@ -25,12 +30,40 @@ Inductive case :=
 | Cw (orig : bytes) (recs : list (N * bytes)) (bit : N) (obs : robs) (verr : N)
     (* segment 1 holds [orig] = the encoding of [recs]; bit flipped; Replay observation; VerifyDir error class *)
 | Cv (k : N) (orig : bytes) (bit : N) (obs : cobs) (orig_val : flat)
-| Ct (ref : list sent) (bit : N) (obs : tobs).
-    (* SST file with one bit flipped, read through openTable / Search / iterator; ref = what the
-       intact table delivers. No model of the table format here: oracle only. *)
-    (* decoder k (1 = DecodeEntryFrom, 2 = DecodeValueSlice) on the flipped record *)
+| Ct (built : list (sent * N)) (bit : N) (obs : tobs).
+    (* an SST file built by the code under test from [built] (entry, index of its block), one
+       bit flipped, read through openTable / Search of every built key / iterator / loadBlock of
+       every block.  No model of the table format here: oracle only.  Whatever is served must be
+       byte-identical to a built entry; a built entry may be missing ("treated as not present":
+       table.Search turns an unloadable block into ErrKeyNotFound) only if loadBlock reports an
+       error, and then all missing entries lie in one block (one flipped bit damages one block). *)
 
-Definition H (s : string) : bytes := unhex s.
+Fixpoint keys_ok (built : list (sent * N)) (ks : list kobs) : bool :=
+  match built, ks with
+  | [], [] => true
+  | b :: built', k :: ks' =>
+      (match k with
+       | KFound e => sent_eqb e (fst b)    (* served: must be the built entry, byte for byte *)
+       | KErr | KNotFound => true          (* judged by [missing_ok] *)
+       end) && keys_ok built' ks'
+  | _, _ => false
+  end.
+
+Fixpoint missing_blocks (built : list (sent * N)) (ks : list kobs) : list N :=
+  match built, ks with
+  | b :: built', k :: ks' =>
+      match k with
+      | KFound _ => missing_blocks built' ks'
+      | _ => snd b :: missing_blocks built' ks'
+      end
+  | _, _ => []
+  end.
+
+Definition missing_ok (built : list (sent * N)) (ks : list kobs) (block_error : bool) : bool :=
+  match missing_blocks built ks with
+  | [] => true
+  | b :: rest => block_error && forallb (N.eqb b) rest
+  end.
 
 Definition rec_eqb (a b : rec) : bool := byte_eqb (fst a) (fst b) && bytes_eqb (snd a) (snd b).
 
@@ -54,13 +87,15 @@ Definition check (c : case) : verdict :=
         | OVal v => negb (RunCodec.flat_eqb v orig_val)
         end in
       mk_verdict mismatch violation 0
-  | Ct ref bit obs =>
+  | Ct built bit obs =>
       match obs with
       | TOpenErr => ok_verdict
       | TPanic => ok_verdict
           (* fail-stop: file/sstable_linux.go reports read errors of the footer by utils.Panic
              (readCheckError); nothing is served. Counted by the harness as sst_panic. *)
-      | TRead ents _ =>
-          mk_verdict false (negb (forallb (fun e => existsb (sent_eqb e) ref) ents)) 0
+      | TRead ks iter berr =>
+          mk_verdict false
+            (negb (keys_ok built ks && missing_ok built ks berr
+                   && forallb (fun e => existsb (fun b => sent_eqb e (fst b)) built) iter)) 0
       end
   end.
